@@ -19,7 +19,8 @@ def one(item):
     subprocess.run(["git", "-C", "/repo", "worktree", "add", "-q", "--detach", wt, "HEAD"], check=True)
     res = {"name": name, "property": prop}
     try:
-        r = subprocess.run(["git", "apply", os.path.join(src, "patch.diff")], cwd=wt, capture_output=True, text=True)
+        patch = src if src.endswith(".diff") else os.path.join(src, "patch.diff")
+        r = subprocess.run(["git", "apply", patch], cwd=wt, capture_output=True, text=True)
         res["applies"] = r.returncode == 0
         if r.returncode != 0:
             res["err"] = r.stderr[-300:]
@@ -55,12 +56,18 @@ def main():
     base = sys.argv[1]
     only = sys.argv[2:]
     items = []
-    for d in sorted(glob.glob(os.path.join(base, "C*/OUT/r*"))):
+    for d in sorted(glob.glob(os.path.join(base, "C*/OUT/[rs]*"))):
         prop = d.split("/")[-3]
         if only and prop not in only:
             continue
         if os.path.exists(os.path.join(d, "patch.diff")):
             items.append((d, prop, "%s-%s" % (prop, os.path.basename(d))))
+    # re-run of the stored ones: <base>/Cxx-rK.diff
+    for f in sorted(glob.glob(os.path.join(base, "C*-*.diff"))):
+        name = os.path.basename(f)[:-5]
+        if only and name[:3] not in only:
+            continue
+        items.append((f, name[:3], name))
     outp = "/verif/refactors/agent/RESULTS.json"
     os.makedirs(os.path.dirname(outp), exist_ok=True)
     results = json.load(open(outp)) if os.path.exists(outp) else {}
@@ -68,7 +75,7 @@ def main():
         for (src, prop, name), res in zip(items, ex.map(one, items)):
             results[name] = res
             print(json.dumps(res)[:600], flush=True)
-            if res.get("applies"):
+            if res.get("applies") and not src.endswith(".diff"):
                 shutil.copy(os.path.join(src, "patch.diff"), "/verif/refactors/agent/%s.diff" % name)
                 if os.path.exists(os.path.join(src, "notes.md")):
                     shutil.copy(os.path.join(src, "notes.md"), "/verif/refactors/agent/%s.md" % name)
